@@ -80,6 +80,8 @@ def optimal_grouping(R, L, h, p):
         cn2_L (numpy.ndarray): compressed profile cn2dh per layer
     '''
     N = len(p)
+    # the cost is built from height differences: signed, or unsigned-integer heights wrap around
+    h = numpy.asarray(h, dtype=float)
 
     # set initial best grouping to be (approx) equal splits 
     gamma_best = numpy.linspace(0,N,L+1,dtype=int)[1:-1]
